@@ -403,7 +403,7 @@ pub fn run(opts: &Opts) -> i32 {
     let mut ev = Evidence::new(
         PROP,
         "exploration",
-        "cases = repository corpus (single-file programs, 8 multi-package projects, error programs) + generated multi-package projects (every sixth with type errors); each is compiled whole-program once and separately under K seeded schedules (random linear extension of the import DAG, interleaved redundant `check`/`build`, shuffled --input/--interface-path/link arguments, artifacts split over 1-2 interface directories); oracles: acceptance agrees, check == build interface bytes, artifacts independent of schedule, `goml link` == link_cores, linked program behaves like the whole-program build on the simulated Go runtime (and like the generator's prediction). distinct = distinct (project, executed step sequence); non-trivial = project with >= 2 packages",
+        "cases = repository corpus (single-file programs, 8 multi-package projects, error programs) + generated multi-package projects (every sixth with type errors; long functions of 30-200 statements, empty array literals, strings with backslash / quote / non-ASCII, structs deriving ToString and ToJson, float constants, extern declarations, closures across packages); each is compiled whole-program once (every third also as `goml run main.gom` from inside the project directory: acceptance must not depend on how the entry file is spelled) and separately under K seeded schedules (random linear extension of the import DAG, interleaved redundant `check`/`build`, shuffled --input/--interface-path/link arguments, artifacts split over 1-2 interface directories); oracles: acceptance agrees, check == build interface bytes, artifacts independent of schedule, `goml link` == link_cores, linked program behaves like the whole-program build on the simulated Go runtime (and like the generator's prediction). distinct = distinct (project, executed step sequence); non-trivial = project with >= 2 packages",
     );
     ev.components_real = harness::REAL_COMPONENTS.iter().map(|s| s.to_string()).collect();
     ev.components_stub = harness::STUB_COMPONENTS.iter().map(|s| s.to_string()).collect();
